@@ -173,6 +173,9 @@ CATALOGUE = {
        "        chunk = self.file.read(size)\n        pos = self.file.tell()\n        for value in chunk:\n            print_byte(value, pos)\n        return chunk", S),
  ],
  'C09': [
+  # the payload of a meta event from a stream that returns short reads
+  (MF, "    data = read_bytes(infile, length)\n    return build_meta_message(meta_type, data, delta)",
+       "    data = list(infile.read(length))\n    if len(data) < length:\n        raise EOFError\n    return build_meta_message(meta_type, data, delta)", C),
   (META, "        check_int(value, 0, 0xffffff)", "        check_int(value, 0, 0xfffffff)", C),
   (META, "        return [tempo >> 16, tempo >> 8 & 0xff, tempo & 0xff]", "        return [tempo >> 16, tempo >> 8, tempo & 0xff]", C),
   (META, "                         (3, 1): 'F#m',", "                         (3, 1): 'Fm',", C),
@@ -187,6 +190,9 @@ CATALOGUE = {
   (META, "        while scan_end < len(msg_bytes) and msg_bytes[scan_end] & 0x80:", "        while scan_end < len(msg_bytes) - 1 and msg_bytes[scan_end] & 0x40:", C),
  ],
  'C10': [
+  # the socket under the port: blocking, no timeout
+  (SOCK, "            self._socket.setblocking(True)\n", "            self._socket.settimeout(5)\n", C),
+  (SOCK, "            self._socket.setblocking(True)\n", "            self._socket.settimeout(None)\n", S),
   (PORTS, "        with self._lock:\n            if self._messages:\n                return self._messages.popleft()\n\n        if self.closed:",
           "        if self._messages:\n            with self._lock:\n                return self._messages.popleft()\n\n        if self.closed:", C),
   (PORTS, "        with self._lock:\n            self._send(msg.copy())", "        self._send(msg.copy())", C),
@@ -231,6 +237,8 @@ CATALOGUE = {
   (TRK, "    messages.sort(key=lambda msg: msg.time)", "    messages = sorted(messages, key=lambda m: m.time)", S),
  ],
  'C13': [
+  (MF, "            if duration_to_next_event > 0.0:", "            if duration_to_next_event > 0.0005:", C),
+  (MF, "            if duration_to_next_event > 0.0:", "            if duration_to_next_event > 0:", S),
   (MF, "            if msg.time > 0:\n                delta = tick2second(msg.time, self.ticks_per_beat, tempo)\n            else:\n                delta = 0\n\n            yield",
        "            if msg.type == 'set_tempo':\n                tempo = msg.tempo\n            if msg.time > 0:\n                delta = tick2second(msg.time, self.ticks_per_beat, tempo)\n            else:\n                delta = 0\n\n            yield", C),
   (MF, "DEFAULT_TEMPO = 500000", "DEFAULT_TEMPO = 600000", C),
@@ -274,6 +282,13 @@ CATALOGUE = {
   (FRZ, "    if msg is None:\n        return None\n    elif not isinstance(msg, Frozen):", "    if not isinstance(msg, Frozen):", C),
  ],
  'C16': [
+  # save(filename): the file of that name, opened from scratch
+  (MF, "            with open(filename, 'wb') as file:\n                self._save(file)",
+       "            import os\n            with open(os.open(filename, os.O_WRONLY | os.O_CREAT, 0o644), 'wb') as file:\n                self._save(file)", C),
+  (MF, "            with open(filename, 'wb') as file:\n                self._save(file)",
+       "            import os\n            with open(os.open(filename, os.O_WRONLY | os.O_CREAT | os.O_TRUNC, 0o644), 'wb') as file:\n                self._save(file)", S),
+  (MF, "            with open(filename, 'wb') as file:\n                self._save(file)",
+       "            with open(filename, 'r+b') as file:\n                self._save(file)", C),
   (MF, "        return merge_tracks(self.tracks, skip_checks=True)\n",
        "        if getattr(self, '_mt', None) is None:\n            self._mt = merge_tracks(self.tracks, skip_checks=True)\n        return self._mt\n", C),
   (MF, "    @property\n    def length(self):", "    @functools.cached_property\n    def length(self):", C),
